@@ -23,7 +23,14 @@ impl Compile for ClassBody {
     fn compile(&self, state: &CompilationState) -> Result<Vec<CompiledItem>, anyhow::Error> {
         let mut result = vec![];
 
-        for feature in &self.features {
+        // A method captures the fields it mentions by their bare name when it is made: every field
+        // is reserved first, so that a method may stand above the declaration of a field it reads.
+        let (variables, functions): (Vec<_>, Vec<_>) = self
+            .features
+            .iter()
+            .partition(|feature| matches!(feature, ClassFeature::Variable(..)));
+
+        for feature in variables.into_iter().chain(functions) {
             result.append(&mut feature.compile(state)?);
         }
 
